@@ -384,7 +384,7 @@ impl OptimizationRouter {
         
         // If exactly one float variable and we couldn't detect the objective directly,
         // assume it's optimizing that variable (for backward compatibility)
-        if float_vars.len() == 1 {
+        if float_vars.len() == 1 && objective.get_underlying_var_raw().is_none() {
             return Some(float_vars[0]);
         }
         
